@@ -712,7 +712,7 @@ def units(prop, tier, seed):
     while tier != "quick" or i < n:
         yield ("rand", subseed(seed, prop, "rand", i), next(order))
         i += 1
-        if prop == "C19" and i % 8 == 0:
+        if prop in ("C19", "C18") and i % 8 == 0:
             yield ("sweep", subseed(seed, prop, "sweep", i), next(order))
 
 
@@ -781,6 +781,27 @@ def exec_unit(prop, unit, agg):
             a.violate("C17", mism[0], mism[1])
         a.run = {"prop": "C17", "config": cfg, "cmds": cmds, "steps": [], "seed": arg, "twin": True}
         _account(prop, a, agg, order, "twin", len(a.invocations) > 0 or any(r not in ("ok", None) for r in ra))
+        return
+    if kind == "sweep" and prop == "C18":
+        # one client disconnects (close / abort / eof) at sampled handle positions: the others must not notice
+        base_run = make_run(prop, arg)
+        base = CtlSim(copy.deepcopy(base_run), {prop}).execute()
+        _account(prop, base, agg, order, "sweep_base", True)
+        labels = [c for c in base.clients]
+        if base.viol or len(labels) < 2:
+            return
+        rng = random.Random(arg)
+        victim = rng.choice(labels)
+        how = rng.choice(["close", "abort", "eof"])
+        L = base.stats["handles"]
+        for h in sorted(set(rng.randrange(L + 1) for _ in range(30))):
+            run = copy.deepcopy(base_run)
+            run["inject"] = [{"h": h, "step": {"op": "close", "c": victim, "how": how}}]
+            sim = CtlSim(run, {prop}).execute()
+            agg.stats["sweep_positions"] += 1
+            _account(prop, sim, agg, order, "sweep:disconnect_" + how, True, sample=False)
+            if sim.viol:
+                return
         return
     if kind == "sweep":
         base_run = make_run(prop, arg)
